@@ -30,6 +30,24 @@ def decoder_cases():
                     for nxt in ("pk", "ru", "sk", "rbs"):
                         L.append(("dec %s P%d:%d rbs#,%s" % (kind, n, k, nxt), [None, "E:end"]))
                         L.append(("dec %s P%d:%d+05 rbs#,%s,pk" % (kind, n - 1 if n > 0 else 0, k, "ru"), [None, "5", "E:end"]))
+    # an item head with a 1/2/4/8-byte argument placed so that it straddles a window multiple, the input ending inside the
+    # argument (before or after the refill): every major type's reader, skip, and peek followed by a read
+    readers = {0: ["ru", "ri", "sk"], 1: ["rn", "ri", "sk"], 2: ["rbs", "sk"], 3: ["rts", "sk"], 4: ["ras", "sk"], 5: ["rms", "sk"], 6: ["sk"]}
+    for k in (1, 2):
+        for j in range(0, 10):
+            start = WIN * k - j                   # offset of the item head
+            n = start - 5                          # the padding byte string (5-byte head) ends where the item starts
+            if len(cborgen.head(2, n)) != 5:
+                continue
+            for major, ops in readers.items():
+                for wi, width in enumerate((1, 2, 4, 8)):
+                    item = bytes([major << 5 | (24 + wi)]) + bytes((0xa1 + 17 * x) & 0xff for x in range(width))
+                    for keep in range(1, width + 1):        # bytes of the item that are present (head included)
+                        for op in ops:
+                            kind = "sf"[(j + keep + major) & 1]
+                            L.append(("dec %s P%d:%d+%s rbs#,%s" % (kind, n, k, item[:keep].hex(), op), [None, "E:end"]))
+                            if op != "sk" and keep == width and j < 3:
+                                L.append(("dec %s P%d:%d+%s rbs#,pk,%s" % (kind, n, k, item[:keep].hex(), op), [None, str(major << 5), "E:end"]))
     # many one-byte items across the boundary
     for total in (WIN - 1, WIN, WIN + 1, 2 * WIN):
         L.append(("dec s R%d:0 %s" % (0, "pk"), ["E:end"]))
